@@ -18,6 +18,13 @@ pub struct Math;
 const NO_LIMIT: u64 = u64::MAX;
 /// work limit for checks other than C17: turns a runaway loop into a counted skip, not a hang
 const SOFT_LIMIT: u64 = 200_000;
+/// powi with an exponent the tier cannot afford to run to the end (`Case::c == 1`): the call is run for this many loop
+/// iterations; whatever happens before that (a panic in a shortcut or an estimate in front of the loop, an early Err / Ok)
+/// is judged, a call still running then is counted and not asserted
+const PREFIX_LIMIT: u64 = 1 << 20;
+fn powi_limit(c: &Case) -> u64 {
+    if c.c == 1 { PREFIX_LIMIT } else { NO_LIMIT }
+}
 
 fn c17_limit(dl: L) -> u64 {
     4 * dl.w as u64 + 64
@@ -29,7 +36,7 @@ fn exec(c: &Case, limit: u64) -> Outs {
     // elsewhere). A function of the crate is pure: what it returns must not depend on what was called before.
     for &(packed, pa, pb) in &c.prog {
         let (pop, ppair) = (packed & 15, (packed >> 4) as usize);
-        if ppair < NPAIRS && accepts(pair_info(ppair).2, pop) {
+        if ppair < NALL && (accepts(pair_info(ppair).2, pop) || primer_accepts(pair_info(ppair).2, pop)) {
             let _ = drive(&mut |st, outs| math_ops::run(st, ppair, pop, pa, pb, SOFT_LIMIT, outs));
         }
     }
@@ -51,7 +58,44 @@ fn history(op: u16, pair: u16, a: u128, b: u128, h: u32) -> Vec<(u16, u128, u128
         let ps: Vec<u16> = pairs_for(o).into_iter().filter(|p| *p != pair && pair_info(*p as usize).0.w == sl.w).collect();
         if ps.is_empty() { None } else { Some(ps[sel as usize % ps.len()]) }
     };
-    match h % 4 {
+    match h % 6 {
+        5 => {
+            // the same VALUE (operand and, for pow, exponent) in another pair, preferably one whose destination is coarser:
+            // a result remembered from a coarser computation must not be served to a finer one
+            let (_, dl, _) = pair_info(pair as usize);
+            let all: Vec<u16> = pairs_for(op).into_iter().filter(|p| *p != pair).collect();
+            let coarser: Vec<u16> = all.iter().cloned().filter(|p| pair_info(*p as usize).1.f < dl.f).collect();
+            let pool = if !coarser.is_empty() && (h >> 3) & 3 != 0 { &coarser } else { &all };
+            if !pool.is_empty() {
+                let p2 = pool[(h >> 5) as usize % pool.len()];
+                let s2 = pair_info(p2 as usize).0;
+                let conv = |x: u128| -> u128 {
+                    let v = sl.val(x);
+                    s2.wrap(&if s2.f >= sl.f { v.shl(s2.f - sl.f) } else { v.shr_floor(sl.f - s2.f) })
+                };
+                let pb = if op == POW { if (h >> 4) & 1 == 0 { conv(b) } else { s2.wrap(&Big::from_i64(2).shl(s2.f)) } } else { b };
+                v.push((pack(op, p2), conv(a), pb));
+            }
+        }
+        4 => {
+            // a call on a type outside the scope (fewer fraction bits) with the same value (or the same bits): state it
+            // leaves behind must not reach the judged call
+            let pp = (NPAIRS + (h >> 3) as usize % (NALL - NPAIRS)) as u16;
+            let pl = pair_info(pp as usize).0;
+            let pop = if primer_accepts(PK::Prime, op) { op } else { [SQRT, LOG2, SIN][(h >> 6) as usize % 3] };
+            let pa = if (h >> 8) & 1 == 0 {
+                // the same value, fraction bits dropped (floor), wrapped into the coarse type
+                pl.wrap(&if sl.f >= pl.f { sl.val(a).shr_floor(sl.f - pl.f) } else { sl.val(a).shl(pl.f - sl.f) })
+            } else {
+                a & pl.mask()
+            };
+            v.push((pack(pop, pp), pa, 0));
+            if (h >> 9) & 1 == 1 {
+                if let Some(p2) = other_pair(op, h >> 10) {
+                    v.push((pack(op, p2), a, b));
+                }
+            }
+        }
         0 => {
             if let Some(p2) = other_pair(op, h >> 2) {
                 v.push((pack(op, p2), a, b));
@@ -524,6 +568,27 @@ fn operands_inner(prop: &str, op: u16, sl: L, dl: L, mode: usize, ia: Ing, ib: I
                 let n = if (r2 >> 5) & 1 == 1 { -n } else { n };
                 return (xr, (n as i32) as u32 as u128);
             }
+            // exponents of any size on bases where the loop cannot leave early (|x| <= 1: tiny, sub-unit, next to +-1), run as a
+            // bounded prefix (flag in bit 64 of the exponent word, moved to `Case::c` by the strategy): one case in 20
+            if h % 20 == 2 && prop != "C17" {
+                let a = match (h >> 8) % 6 {
+                    0 => 1 + (r1 >> 100) % 4,                                              // a few ulp
+                    1 => one >> (1 + (r1 >> 100) as u32 % sl.f.max(2).min(126)),            // 2^-k
+                    2 => log_uniform(sl, r1, r2, true) % one.max(1),                        // anywhere below 1
+                    3 => one - 1 - (r1 >> 100) % 1000,                                      // just below 1
+                    4 => (one - (r1 >> 100) % 3).wrapping_neg() & sl.mask(),                // -1 and neighbours (signed)
+                    _ => one / 4 + small(r1) as u128 % 3,                                   // around 1/4
+                };
+                let a = if !sl.signed && (h >> 8) % 6 == 4 { one - 1 } else { a & sl.mask() };
+                let n: i64 = match (h >> 12) % 5 {
+                    0 => i32::MAX as i64,
+                    1 => i32::MIN as i64,
+                    2 => (1i64 << (20 + (h >> 16) % 11)) + ((h >> 24) % 3) as i64 - 1,
+                    3 => -((1i64 << (20 + (h >> 16) % 11)) + ((h >> 24) % 3) as i64 - 1),
+                    _ => (h >> 16) as u32 as i32 as i64,
+                };
+                return (a, ((n as i32) as u32 as u128) | 1u128 << 64);
+            }
             let av = sl.val(a).abs();
             // |x| <= 1 (roughly): the loop cannot leave early by overflow, so cap |n| to bound the work
             let near_unit = av <= Big::from_u128(one).add(&Big::from_u128(one >> 8));
@@ -679,7 +744,8 @@ impl Engine for Math {
                 let (a, b) = operands(&prop, op, sl, dl, m, ia, ib, r1, r2);
                 // powi is linear in |n|: no second call of it
                 let prog = if op == POWI { Vec::new() } else { history(op, pair, a, b, hist) };
-                Case { op, lay: sl.idx() as u16, lay2: pair, a, b, prog, ..Case::default() }
+                let (b, cflag) = if op == POWI { (b & 0xffff_ffff, (b >> 64) & 1) } else { (b, 0) };
+                Case { op, lay: sl.idx() as u16, lay2: pair, a, b, c: cflag, prog, ..Case::default() }
             })
             .boxed()
     }
@@ -722,7 +788,7 @@ impl Engine for Math {
         }
     }
     fn rule(&self, prop: &str) -> String {
-        let types = "246 source->destination pairs (S != D systematically: I9F23 into 64- and 128-bit destinations, 64-bit sources into 128-bit destinations at fraction widths fs, fs+8, 2fs-9, 2fs-8, 2fs-4, 2fs, the widest and the middle; more unsigned sqrt / powi pairs), among them: every signed layout of the scope as a same-type pair (I9F23; the 33 64-bit layouts I41F23..I9F55; the 97 128-bit layouts I105F23..I9F119); I9F23->I32F32 I9F23->I64F64 I32F32->I64F64 I16F48->I40F88 I9F23->I9F55 I24F40->I40F88 I9F23->I33F31 I33F31->I42F86 I24F40->I28F100; unsigned sqrt U9F23 U32F32 U64F64 U96F32 U33F31 U42F86 U32F32->U64F64; U9F23->I32F32 U32F32->I64F64 U33F31->I42F86 (sqrt, powi)";
+        let types = "270 source->destination pairs (S != D systematically: destinations whose integer-bit count is the source fraction-bit count + {0, 1, 2}, where the smallest source value's reciprocal straddles the destination maximum; I9F23 into 64- and 128-bit destinations, 64-bit sources into 128-bit destinations at fraction widths fs, fs+8, 2fs-9, 2fs-8, 2fs-4, 2fs, the widest and the middle; more unsigned sqrt / powi pairs), among them: every signed layout of the scope as a same-type pair (I9F23; the 33 64-bit layouts I41F23..I9F55; the 97 128-bit layouts I105F23..I9F119); I9F23->I32F32 I9F23->I64F64 I32F32->I64F64 I16F48->I40F88 I9F23->I9F55 I24F40->I40F88 I9F23->I33F31 I33F31->I42F86 I24F40->I28F100; unsigned sqrt U9F23 U32F32 U64F64 U96F32 U33F31 U42F86 U32F32->U64F64; U9F23->I32F32 U32F32->I64F64 U33F31->I42F86 (sqrt, powi)";
         match prop {
             "C12" => format!("cases = (function, type pair, operands) over {}; operands over the whole source type (classes, log-uniform magnitudes, powers of two, thresholds of the result range), pow exponents, powi exponents from small/2^k+-1/i32::MIN/i32::MAX/uniform (|n| capped at 2^17 where |x| <~ 1, where the loop cannot leave early, except a few uncapped i32::MIN/MAX exponents on 32-bit sources), trig angles |x| <= 200 (tan 100). Oracle: outcome is Ok/Err/return in both profiles (no unwind), domain rules (sqrt of negative, log of non-positive, negative base with fractional exponent => Err), true result (320-bit oracle, 2^-16 guard band) above the destination maximum => Err. Non-trivial: operand magnitude outside [2^-4, 24] or an Err outcome.", types),
             "C13" => format!("cases = sqrt over {}; x log-uniform, perfect squares +-1 ulp, near 1, smallest invertible, extremes. Oracle: exact integer bracket (r-4)^2 <= X*2^F <= (r+4)^2, r >= 0, sqrt(0)=0, sqrt(1)=1; Err only for x < 0 or unrepresentable reciprocal. Non-trivial: x not in {{0, 1}}.", types),
@@ -734,7 +800,7 @@ impl Engine for Math {
         }
     }
     fn assumptions(&self, prop: &str) -> Vec<String> {
-        let mut v = vec!["source/destination pairs are a fixed list of 246 (compile-time type parameters): every signed layout of the scope as a same-type pair, S != D sampled systematically".to_string()];
+        let mut v = vec!["source/destination pairs are a fixed list of 270 (compile-time type parameters): every signed layout of the scope as a same-type pair, S != D sampled systematically".to_string()];
         match prop {
             "C16" => v.push("f64 libm oracle with a 2^-44 margin (times 1 + tan^2 for tan) added to every bound".into()),
             "C17" | "C12" => v.push("loop iterations counted by the cfg(substrate_fixed_verif) hook in every loop body of src/transcendental.rs".into()),
@@ -794,7 +860,7 @@ impl Engine for Math {
             ev.skipped = true;
             return ev;
         }
-        let limit = if prop == "C17" { c17_limit(dl) } else if op == POWI { NO_LIMIT } else { SOFT_LIMIT };
+        let limit = if prop == "C17" { c17_limit(dl) } else if op == POWI { powi_limit(c) } else { SOFT_LIMIT };
         let outs = exec(c, limit);
         let get = |name: &str| outs.iter().find(|(n, _)| *n == name).map(|x| x.1.clone()).unwrap_or(Out::Na);
         let res = get("result");
@@ -853,6 +919,9 @@ impl Engine for Math {
                 ev.skipped = true;
                 return ev;
             }
+        }
+        if op == POWI && c.c == 1 {
+            ev.class(if hit_limit { "powi-huge-exponent(prefix of 2^20 iterations ran clean, rest not run)" } else { "powi-huge-exponent(ended within the prefix: judged)" });
         }
         if hit_limit {
             // a runaway loop is C17's finding; here the case is only counted
@@ -1319,7 +1388,7 @@ impl Engine for Math {
             return Vec::new();
         }
         // the loop counter is not an output of the library: only results are compared
-        exec(c, if c.op == POWI { NO_LIMIT } else { SOFT_LIMIT }).into_iter().filter(|(l, _)| *l != "iters").collect()
+        exec(c, if c.op == POWI { powi_limit(c) } else { SOFT_LIMIT }).into_iter().filter(|(l, _)| *l != "iters").collect()
     }
     fn pair_class(&self, _prop: &str, c: &Case, _label: &str, _rel: &[(String, Out)]) -> vcore::pair::PairClass {
         use vcore::pair::PairClass;
